@@ -430,7 +430,25 @@ func c06PostClose(r *fw.R, c *websocket.Conn, what string) {
 
 // (B) peer initiated close
 func c06Peer(r *fw.R, d c06Desc, code, rl int) {
-	c, _, peerEnd, err := libConn(d.Role, wire.Params{}, 0, xport.Plan{}, c06PeerPlan(d.Seed))
+	// A client may send frames right behind its handshake request, before it has seen the response: for a server
+	// they then sit in the HTTP server's read buffer when the connection is taken over. One case in eight of the
+	// plain placements delivers everything - the messages and the Close frame - that way.
+	var early []byte
+	if d.Role == RoleServer && (code+rl)%8 == 0 && (d.Place == "before-any-message" || d.Place == "after-messages") {
+		tmp := newRawPeer(nil, d.Role, wire.Params{}, d.Seed)
+		if d.Place == "after-messages" {
+			for i := 0; i < 2; i++ {
+				early = append(early, tmp.Mask(wire.Data(wire.OpText, true, []byte(fmt.Sprintf("msg-%d", i)))).Bytes()...)
+			}
+		}
+		var pay []byte
+		if code != 1005 {
+			pay = wire.ClosePayload(code, reasonOf(rl, code))
+		}
+		early = append(early, tmp.Mask(wire.Close(pay)).Bytes()...)
+		r.Count("peer_closes_sent_before_the_handshake_completed", 1)
+	}
+	c, _, peerEnd, err := libConnEarly(d.Role, wire.Params{}, 0, xport.Plan{}, c06PeerPlan(d.Seed), early)
 	if err != nil {
 		r.Violate("C06/attach-failed", err.Error(), "")
 		return
@@ -456,7 +474,7 @@ func c06Peer(r *fw.R, d c06Desc, code, rl int) {
 		nBefore = 2
 	}
 	sendMsgs := func() {
-		for i := 0; i < nBefore; i++ {
+		for i := 0; i < nBefore && early == nil; i++ {
 			peer.Send(wire.Data(wire.OpText, true, []byte(fmt.Sprintf("msg-%d", i))))
 		}
 	}
@@ -502,7 +520,9 @@ func c06Peer(r *fw.R, d c06Desc, code, rl int) {
 			peer.Send(wire.Close(pay))
 			peer.Send(wire.Data(wire.OpText, true, []byte("after-close")))
 		} else {
-			peer.Send(wire.Close(pay))
+			if early == nil {
+				peer.Send(wire.Close(pay))
+			}
 			if vanish {
 				afterClose()
 			}
